@@ -103,7 +103,8 @@ def setup(case):
     r.events = []
     r.consumed = 0
     r.mismatch_log = []
-    polls, tail = case['polls'], case.get('tail')
+    r.polls, r.tail = case['polls'], case.get('tail')
+    polls, tail = r.polls, r.tail
     orig_sleep = clock.sleep
 
     def sleep(s):
@@ -115,10 +116,10 @@ def setup(case):
         from cassandra import OperationTimedOut
         from cassandra.connection import ConnectionShutdown
         k = r.consumed
-        if k < len(polls):
-            p = polls[k]
-        elif tail is not None:
-            p = tail
+        if k < len(r.polls):
+            p = r.polls[k]
+        elif r.tail is not None:
+            p = r.tail
         else:
             raise H.ScriptExhausted()
         r.consumed += 1
@@ -140,6 +141,37 @@ def setup(case):
         return results_for(msgs, resp, cc._uses_peers_v2)
     conn = H.FakeConnection(DefaultEndPoint(addr(CONTROL)), script)
     r.conn = conn
+    # scripted schema-agreement lock: while THIS waiter (B) is queued on it, another waiter (A) holds it across its own
+    # polls of virtual time; B gets the lock when A is done.  No threads: A's whole wait runs inside B's acquire.
+    r.lock_depth, r.t_acq, r.a_obs, r.a_call = 0, None, None, None
+    wa = case.get('waiter_a')
+
+    class ScriptedLock(object):
+        def acquire(self, *a, **k):
+            self.__enter__()
+            return True
+
+        def release(self):
+            self.__exit__()
+
+        def __enter__(self):
+            r.lock_depth += 1
+            if r.lock_depth == 1 and wa is not None and r.a_obs is None and r.a_call is not None:
+                saved = (r.polls, r.tail, r.consumed, r.events, r.mismatch_log)
+                r.polls, r.tail, r.consumed, r.events, r.mismatch_log = wa['polls'], wa.get('tail'), 0, [], []
+                r.a_obs = {}
+                out = run_wait(r, case, r.a_call)
+                r.a_obs = {'outcome': out, 'events': r.events, 'mismatches': r.mismatch_log, 'consumed': r.consumed}
+                r.polls, r.tail, r.consumed, r.events, r.mismatch_log = saved
+                if r.polls:
+                    set_hosts(cl, r.polls[0]['hosts'])
+            r.t_acq = clock.ms
+            return self
+
+        def __exit__(self, *a):
+            r.lock_depth -= 1
+            return False
+    cc._schema_agreement_lock = ScriptedLock()
     # observe _get_schema_mismatches without changing it
     orig_mm = cc._get_schema_mismatches
 
@@ -165,10 +197,15 @@ def ver_id(u):
 def run_wait(r, case, call):
     """call() -> value of wait_for_schema_agreement; returns the observable outcome"""
     start = r.clock.ms
+    r.t_acq = None
+
+    def origin():
+        # the waiter's own budget starts when it holds the schema-agreement lock
+        return r.t_acq if r.t_acq is not None else start
     try:
         v = call()
     except H.ScriptExhausted:
-        return ['more', r.consumed, r.clock.ms - start]
+        return ['more', r.consumed, r.clock.ms - origin()]
     except Exception as e:
         from cassandra.connection import ConnectionShutdown
         if isinstance(e, ConnectionShutdown):
@@ -177,7 +214,7 @@ def run_wait(r, case, call):
     if v is True:
         return ['true', r.consumed]
     if v is False:
-        return ['false', r.clock.ms - start]
+        return ['false', r.clock.ms - origin()]
     if v is None:
         return ['none']
     return ['other', repr(v)]
@@ -197,10 +234,12 @@ def run_direct(case):
             kw['wait_time'] = secs(case['budget_ms'])
         if case.get('conn_from_cc'):
             cc._connection = r.conn
-            out = run_wait(r, case, lambda: cc.wait_for_schema_agreement(**kw))
+            call = lambda: cc.wait_for_schema_agreement(**kw)
         else:
-            out = run_wait(r, case, lambda: cc.wait_for_schema_agreement(r.conn, **kw))
-        return {'outcome': out, 'events': r.events, 'mismatches': r.mismatch_log, 'consumed': r.consumed}
+            call = lambda: cc.wait_for_schema_agreement(r.conn, **kw)
+        r.a_call = call
+        out = run_wait(r, case, call)
+        return {'outcome': out, 'events': r.events, 'mismatches': r.mismatch_log, 'consumed': r.consumed, 'waiter_a': r.a_obs}
     finally:
         H.dispose_cluster(r.cl)
 
@@ -248,6 +287,7 @@ def run_future(case):
                 raise RuntimeError('harness: %r' % (out,))
             return {'true': True, 'false': False, 'none': None}[out[0]]
         cc.wait_for_schema_agreement = wait
+        r.a_call = lambda: orig_wait(r.conn)
         session = FakeSession(cl)
         rf = C.ResponseFuture(session, None, None, None, host=object())
         msg = ResultMessage(RESULT_KIND_SCHEMA_CHANGE)
@@ -259,7 +299,7 @@ def run_future(case):
                 'refreshed': len(refreshed), 'resubmitted': session.submitted[1:],
                 'final_set': bool(rf._event.is_set() and rf._final_exception is None and rf._final_result is None),
                 'events': r.events, 'wait': waits[0] if waits else None, 'nwaits': len(waits),
-                'mismatches': r.mismatch_log, 'consumed': r.consumed}
+                'mismatches': r.mismatch_log, 'consumed': r.consumed, 'waiter_a': r.a_obs}
     finally:
         H.dispose_cluster(r.cl)
 
@@ -367,6 +407,13 @@ def check_future(case, obs):
     if not obs['final_set']:
         bad.append(('future.no-final-result', 'the schema-change future was not completed with result None'))
     return bad
+
+
+def waiter_a_case(case):
+    """the first waiter of a two-waiter history, as a direct wait of its own (same budget, same connection)"""
+    wa = case['waiter_a']
+    return {'mode': 'direct', 'budget_ms': case['budget_ms'], 'qtimeout_ms': case['qtimeout_ms'], 'v2': case['v2'],
+            'polls': wa['polls'], 'tail': wa.get('tail'), 'cc_shutdown': case.get('cc_shutdown')}
 
 
 # ---------------------------------------------------------------------------------------------- Gallina literals
